@@ -282,6 +282,7 @@ pub fn examine(seed: u64, idx: u64, s: &dyn SuiteOps, byte_cuts: usize) -> Verdi
             let idx_of = |n: &str| mine.iter().position(|x| x.0.ends_with(n));
             let (Some(mr), Some(mn)) = (idx_of("masked_response"), idx_of("masking_nonce")) else { continue };
             let mut found = false;
+            let mut key_bytes = 0usize; // bytes of tape that feed the stand-in masking key and nothing else visible
             for j in 0..draws.len() {
                 let mut tape: Vec<u8> = vec![];
                 for (q, d) in draws.iter().enumerate() {
@@ -304,8 +305,14 @@ pub fn examine(seed: u64, idx: u64, s: &dyn SuiteOps, byte_cuts: usize) -> Verdi
                 let changed: Vec<bool> = mine.iter().zip(rolj.iter()).map(|(a, b)| a.1 != b.1).collect();
                 if changed[mr] && !changed[mn] {
                     found = true;
-                    break;
+                    key_bytes += draws[j].len();
                 }
+            }
+            let nh = s.lens().nh;
+            if found && key_bytes < nh {
+                let mut wj = w.clone();
+                wj.note = format!("c17 fake masking key entropy on op {i}");
+                out.v.push((Violation { clause: "fake_masking_key_not_fresh", op: i, detail: format!("only {key_bytes} bytes of the tape feed the {nh}-byte stand-in masking key of the no-record login") }, wj));
             }
             if !found {
                 let mut wj = w.clone();
